@@ -159,6 +159,7 @@ def kinds_menu(thorough):
                                       ["a", "b", "n/a", "zz"])))
     menu.append(("val", lambda R, S: ({"HED": "Label/#"}, {"kind": "value", "template": "Label/#"},
                                       ["v1", "n/a", "fa\\fam\\d1\\1", "x#y"])))
+    menu.append(("val2", lambda R, S: ({"HED": "ID/#"}, {"kind": "value", "template": "ID/#"}, ["k7", "n/a"])))
     menu.append(("ign", lambda R, S: ({"Description": "ignored"}, {"kind": "ignore"}, ["x", "n/a"])))
     menu.append(("scalar", lambda R, S: ("rest", {"kind": "ignore"}, ["x"])))
     positions = REF_POSITIONS if thorough else REF_POSITIONS[:9]
@@ -174,6 +175,11 @@ def kinds_menu(thorough):
         menu.append((f"cat2ref{i}", lambda R, S, pos=pos: (
             {"HED": {"a": pos.replace("R", R).replace("S", S), "b": "Green"}},
             {"kind": "categorical", "map": {"a": pos.replace("R", R).replace("S", S), "b": "Green"}}, ["a", "b"])))
+    # two referenced columns, each entry mentions only one of them
+    menu.append(("cat2ref-split", lambda R, S: (
+        {"HED": {"a": "Circle, ({R})".replace("R", R), "b": "Green, ({S}), Triangle".replace("S", S)}},
+        {"kind": "categorical", "map": {"a": "Circle, ({R})".replace("R", R), "b": "Green, ({S}), Triangle".replace("S", S)}},
+        ["a", "b"])))
     return menu
 
 
@@ -183,11 +189,12 @@ def build_cases(thorough):
     targets = [("cat", "val"), ("val", "cat"), ("HED", "cat"), ("cat", "HED"), ("val", "HED")]
     refkinds = [k for k in menu if "ref" in k]
     # column names cover every character class a reference may hold, incl. a name made of digits only
-    for alias in ({"cat": "ca-t1", "val": "Va_l2", "HED": "HED"}, {"cat": "12", "val": "v_", "HED": "HED"}):
+    for alias in ({"cat": "ca-t1", "val": "Va_l2", "val2": "w-3", "HED": "HED"}, {"cat": "12", "val": "v_", "val2": "7w", "HED": "HED"}):
       for rk in refkinds:
-        if alias["cat"] == "12" and not thorough and rk not in ("catref0", "catref2", "catref5", "valref0", "cat2ref0"):
+        if alias["cat"] == "12" and not thorough and rk not in ("catref0", "catref2", "catref5", "valref0", "cat2ref0", "cat2ref-split"):
             continue
-        for R, S in targets:
+        # two referenced columns of one kind (both value columns) for the two-reference entries
+        for R, S in targets + ([("val", "val2"), ("val2", "val")] if "2ref" in rk else []):
             if "2ref" not in rk and (R, S) in (("cat", "HED"), ("val", "HED")):
                 continue
             names = []
@@ -473,11 +480,55 @@ def worker(rec, shard, nshards, thorough, seed):
         spreadsheet_cases(rec, env)
 
 
+RESET_SIDECARS = {
+    "none": None,
+    "plain": {"tt": {"HED": {"go": "Red", "stop": "Square"}}, "val": {"HED": "Label/#"}},
+    "refs": {"tt": {"HED": {"go": "Red, ({val}, {HED})", "stop": "Square, {val}"}}, "val": {"HED": "Label/#"}},
+    "other-ref": {"tt": {"HED": {"go": "(Red, {HED})", "stop": "Square"}}, "val": {"HED": "ID/#"}},
+}
+RESET_TABLE = "onset\ttt\tval\tHED\n1\tgo\t5\tGreen\n2\tgo\tn/a\tn/a\n3\tstop\t7\tBlue\n"
+
+
+def mapper_reset_check(ctx):
+    """E2 on one table object: every sequence (to depth 3) of sidecar replacements through reset_column_mapper; after each
+    step the assembled rows equal those of a table built with that sidecar from the start."""
+    from hed.models.tabular_input import TabularInput
+    from hed.models.sidecar import Sidecar
+    rec = ctx.rec
+
+    def sc(name):
+        d = RESET_SIDECARS[name]
+        return None if d is None else Sidecar(io.StringIO(json.dumps(d)))
+    fresh = {n: list(TabularInput(io.StringIO(RESET_TABLE), sidecar=sc(n)).series_a) for n in RESET_SIDECARS}
+    for d in (1, 2, 3):
+        for hist in itertools.product(RESET_SIDECARS, repeat=d + 1):
+            if any(a == b for a, b in zip(hist, hist[1:])):
+                continue
+            rec.n("evaluations")
+            rec.n("transitions", d)
+            rec.n("distinct_nontrivial")
+            rec.state(("mapper-reset", hist[0], hist[-1], d))
+            try:
+                ti = TabularInput(io.StringIO(RESET_TABLE), sidecar=sc(hist[0]))
+                list(ti.series_a)
+                for step, n in enumerate(hist[1:]):
+                    ti.reset_column_mapper(sc(n))
+                    got = list(ti.series_a)
+                    if got != fresh[n]:
+                        rec.violation("C06:history:assembly-after-sidecar-replacement-differs-from-fresh-table",
+                                      history=list(hist[:step + 2]), fresh=fresh[n], got=got)
+                        break
+            except Exception as e:
+                rec.violation("C06:history:sidecar-replacement-raises:" + type(e).__name__, history=list(hist), error=repr(e)[:200])
+            rec.outcome("mapper-reset")
+
+
 def run(ctx):
     ncases = sum(1 for _ in build_cases(ctx.thorough))
     ctx.rec.notes["bounds"] = {"sidecars": ncases, "reference_positions": REF_POSITIONS, "two_reference_templates": TWO_REFS,
                                "history_length": 3 if ctx.thorough else 2}
     ctx.parallel(worker, ctx.thorough, ctx.seed)
+    mapper_reset_check(ctx)
     ctx.rec.counts["states"] = len(ctx.rec.states)
     ctx.rec.notes["observed_dtype_drift"] = ctx.rec.counts.get("observed_dtype_drift", 0)
 
